@@ -264,6 +264,7 @@ def cases(draw, opts):
         if draw(st.integers(0, 3)) == 0:
             # file names that are no identifiers (fine for the C++ back-ends; the outputs are compared, not imported)
             lay.stems = [('my-%s' if i % 2 else 'v1.%s') % lay.stem(i) for i in range(lay.nfiles)]
+            lay.exts = None     # ('v1.f0' without extension would be the file 'v1' with extension '.f0')
         variation = draw(st.sampled_from(['hashseed', 'hashseed', 'cwd', 'order', 'alone', 'second_call',
                                           'after_other']))
         if lay.nfiles >= 4 and draw(st.booleans()):
